@@ -84,6 +84,15 @@ class SOpaque(Sym):
         return f"SOpaque({self.kind},{self.t})"
 
 
+class STruthy(Sym):
+    """A value of which only the truthiness is modelled (e.g. an optional dict)."""
+
+    __slots__ = ("t",)
+
+    def __init__(self, t):
+        self.t = t
+
+
 class Undefined:
     """Value of a local that was havocked at a loop head without a declared kind."""
 
